@@ -112,3 +112,26 @@ class EnvProbe:
         return dict(pid=os.getpid(), ppid=os.getppid(), mark=MARK, context=dict(self.context),
                     main_thread=threading.current_thread() is threading.main_thread(),
                     proc_name=multiprocessing.current_process().name)
+
+
+# ---- a task whose outcome depends on the Lab context (for multi-call histories over the SAME task objects)
+@labtech.task(cache=None)
+class X:
+    name: str
+    deps: tuple = ()
+
+    def run(self):
+        if self.context.get('fail') == self.name:
+            raise Boom(self.name)
+        return (self.name, self.context.get('gen'), tuple(d.result for d in self.deps))
+
+
+@labtech.task
+class K2:          # cacheable environment probe
+    name: str
+
+    def filter_context(self, context):
+        return {k: v for k, v in context.items() if k in ('shared', self.name)}
+
+    def run(self):
+        return dict(pid=os.getpid(), context=dict(self.context))
